@@ -35,7 +35,7 @@ struct HRec {
 };
 struct World {
 	std::vector<HRec> h; int live_functors = 0; int loop_thread = -1, loop_thread2 = -1; bool stop_called = false; bool pair_starved = false; int pair_waits = 0; int loop_restarts = 0;
-	int dev_cycles = 0, dev_reused = 0, dev_stale = 0, dev_attached = 0, burst_timers = 0, pipe_waits = 0; std::vector<int> pipe_fds; std::string dup_timer_id; std::map<int,int> stale_fd;   /* descriptor number -> handler of the device closed by a non-loop thread whose cancel the loop may not have applied yet */ std::map<std::pair<int,int>,bool> armed; std::set<int> xcancelled_fds; std::vector<std::pair<int,uint64_t>> xcancels; uint64_t evseq = 0;
+	int dev_cycles = 0, dev_reused = 0, dev_stale = 0, dev_attached = 0, burst_timers = 0, pipe_waits = 0, victim_cancels = 0; std::vector<int> pipe_fds; std::string dup_timer_id; std::map<int,int> stale_fd;   /* descriptor number -> handler of the device closed by a non-loop thread whose cancel the loop may not have applied yet */ std::map<std::pair<int,int>,bool> armed; std::set<int> xcancelled_fds; std::vector<std::pair<int,uint64_t>> xcancels; uint64_t evseq = 0;
 	int add(const std::string &k){ simk::TsanIgnore ign; h.emplace_back(); h.back().kind = k; return (int)h.size()-1; }
 };
 World *W = nullptr;
@@ -105,7 +105,7 @@ struct E6 : Engine {
 				else if(x < 97){ o["op"] = "dev"; o["early"] = (int)r.below(3); o["dir2"] = (int)r.below(2); o["gap"] = (int)r.below(3); o["settle"] = (int)(r.below(3) != 0); o["xfer"] = r.below(2) ? (int)(1 + r.below(50)) : 0; o["attach"] = (int)(r.below(4) == 0); }   /* attach: the first device does not own its descriptor (attach()); close() must cancel its wait all the same, the descriptor is closed by the thread itself */   // a device owned by this thread: armed, closed by this thread, then a new device on the re-used descriptor number
 				else if(x == 97 && r.below(2) == 0){ o["op"] = "pipe_hup"; o["data"] = (int)(r.below(3) == 0); }   /* a wait for readability on the read end of a pipe whose only writer goes away without writing: the kernel reports a hang-up with no "in" bit */
 				else if(x == 98 && r.below(2) == 0){ o["op"] = "io_bad"; o["dir"] = (int)r.below(2); }   /* a wait armed on something that is no descriptor: the error is a completion like any other - once, on the loop thread */
-				else if(x == 99 && r.below(12) == 0){ o["op"] = "burst"; o["n"] = 700 + (int)r.below(700); o["keep"] = (int)r.below(3); }   /* hundreds of timers pending at once on one io_service (a busy server: one time-out per connection) */
+				else if(x == 99 && r.below(12) == 0){ o["op"] = "burst"; o["n"] = 700 + (int)r.below(700); o["keep"] = (int)r.below(3); o["victims"] = (int)r.below(5); }   /* hundreds of timers pending at once on one io_service (a busy server: one time-out per connection) */
 				else { o["op"] = "yield"; }
 				ops.push(o); }
 			th.push(ops); }
@@ -281,7 +281,12 @@ struct E6 : Engine {
 					else if(op == "burst"){   /* many timers pending at once: every one gets an id of its own, and cancelling an id completes that wait and no other */
 						int n = (int)std::max<int64_t>(1,std::min<int64_t>(o.geti("n"),1600)); std::vector<int> ids,hids; std::set<int> seen; int64_t base = simk::now_us() + 3600LL*1000000;
 						{ simk::TsanIgnore ign; if(w.h.size() + (size_t)n + 200 > w.h.capacity()) n = 0; }
-						for(int k=0;k<n;k++){ int h = w.add("timer"); w.h[h].posted_after_stop = w.stop_called; w.h[h].deadline_us = base + k*1000; ptime at = ptime(w.h[h].deadline_us/1000000,(int)((w.h[h].deadline_us%1000000)*1000)); int id = srv.set_timer_event(at,Fn(h));
+						/* victims: a few timers that are due at once; the thread cancels each of them some way into the burst unless it has seen its handler run (the documented
+						   contract) - the cancel may land between the expiry of the timer and the run of its handler, when its id must not have gone to one of the burst's timers */
+						std::vector<int> vid,vh; int nv = n ? (int)std::max<int64_t>(0,std::min<int64_t>(o.geti("victims"),4)) : 0;
+						for(int j=0;j<nv;j++){ int h = w.add("timer"); w.h[h].posted_after_stop = w.stop_called; w.h[h].deadline_us = simk::now_us() + 2000; ptime at = ptime(w.h[h].deadline_us/1000000,(int)((w.h[h].deadline_us%1000000)*1000)); Fn vf(h); vid.push_back(srv.set_timer_event(at,[vf](booster::system::error_code const &e){ if(!e) for(int y=0;y<12;y++) simk::yield();   /* a handler that takes its time: the victims expire together, the later ones wait in the queue behind it */ vf(e); })); vh.push_back(h); }
+						auto cancel_victims = [&]{ for(size_t j=0;j<vid.size();j++) if(vid[j] >= 0 && w.h[vh[j]].count == 0){ int id = vid[j]; vid[j] = -1; srv.cancel_timer_event(id); simk::TsanIgnore ign; w.h[vh[j]].t_cancel_us = simk::now_us(); w.victim_cancels++; break; } };
+						for(int k=0;k<n;k++){ if(nv && k % 5 == 4) cancel_victims(); int h = w.add("timer"); w.h[h].posted_after_stop = w.stop_called; w.h[h].deadline_us = base + k*1000; ptime at = ptime(w.h[h].deadline_us/1000000,(int)((w.h[h].deadline_us%1000000)*1000)); int id = srv.set_timer_event(at,Fn(h));
 							if(!seen.insert(id).second){ simk::TsanIgnore ign; if(w.dup_timer_id.empty()) w.dup_timer_id = "set_timer_event() returned id " + std::to_string(id) + " for timer#" + std::to_string(h) + " while another pending timer of the same burst (" + std::to_string(k) + " armed so far, none due for an hour) holds that id"; }
 							ids.push_back(id); hids.push_back(h); }
 						{ simk::TsanIgnore ign; w.burst_timers += n; }
@@ -392,7 +397,7 @@ struct E6 : Engine {
 			for(auto &pr:pairs){ ::close(pr.first); ::close(pr.second); }
 		}
 		if(res.ok && !w.dup_timer_id.empty()) res.fail("timer-id-not-unique",w.dup_timer_id);
-		res.counters["burst_timers"] = w.burst_timers; res.counters["pipe_hangup_waits"] = w.pipe_waits;
+		res.counters["burst_timers"] = w.burst_timers; res.counters["victim_timer_cancels_inside_a_burst"] = w.victim_cancels; res.counters["pipe_hangup_waits"] = w.pipe_waits;
 		res.counters["run_restarted_after_handler_exception"] = w.loop_restarts; res.counters["dev_cycles"] = w.dev_cycles; res.counters["dev_descriptor_reused"] = w.dev_reused; res.counters["dev_cycles_on_stale_number"] = w.dev_stale; res.counters["dev_attached_devices"] = w.dev_attached;
 		int n_ok = 0, n_cancel = 0;
 		if(!stop_race) for(size_t i=0;i<w.h.size();i++){ HRec &r = w.h[i]; if(!r.aba) continue; std::string nm = r.kind + "#" + std::to_string(i); std::string bad;
@@ -408,6 +413,7 @@ struct E6 : Engine {
 			if(r.kind == "ptimer" && r.must_cancel && r.code == 0) res.fail("cancelled-timer-fired",nm + ": cancel() was called on the deadline_timer while this wait (armed from inside the previous handler) was pending and not yet due, yet the handler was invoked with success " + std::to_string((long)((r.t_us - r.deadline_us)/1000)) + " ms after its deadline");
 			// a cancel completes the wait: the loop is woken for it, the cancellation does not have to wait for whatever wakes the loop next
 			if(r.kind == "timer" && canceled && r.t_cancel_us >= 0 && r.t_us - r.t_cancel_us > 5000000 && !stop_race) res.fail("cancelled-timer-delivered-late",nm + ": cancel_timer_event() returned at " + std::to_string((long)(r.t_cancel_us/1000)) + " ms (simulated) but the handler got its cancellation " + std::to_string((long)((r.t_us - r.t_cancel_us)/1000)) + " ms later - only when something else woke the loop");
+			if(r.kind == "timer" && canceled && r.t_cancel_us < 0 && !stop_race) res.fail("timer-cancelled-by-nobody",nm + " was completed with a cancellation although cancel_timer_event() was never called with its id");
 			if(r.kind == "timer" || r.kind == "dtimer" || r.kind == "ptimer"){
 				if(r.code == 0 && r.t_us < r.deadline_us) res.fail("timer-fired-early",nm + " fired " + std::to_string((long)(r.deadline_us - r.t_us)) + " us before its deadline");
 				if(r.code != 0 && !canceled) res.fail("unexpected-error-code",nm + " got error " + std::to_string(r.code) + "/" + r.cat); }
